@@ -14,7 +14,7 @@ def materialise(spec):
         a = np.array(spec["lit"], dtype=np.float64)
         if "imag" in spec:
             a = a + 1j * np.array(spec["imag"], dtype=np.float64)
-        return a.astype(spec["dtype"])
+        return a.astype(bool) if spec["dtype"] == "bool" else a.astype(spec["dtype"])
     shape = tuple(spec["shape"])
     kind = spec["kind"]
     scale = spec.get("scale", 1.0)
@@ -27,6 +27,11 @@ def materialise(spec):
         return a.astype(np.float64 if kind == "f64" else np.float32)
     if kind == "i64":
         return g.integers(-5, 6, size=shape).astype(np.int64)
+    if kind in ("i8", "i16", "u8"):
+        lo = 0 if kind == "u8" else -5
+        return g.integers(lo, 6, size=shape).astype({"i8": np.int8, "i16": np.int16, "u8": np.uint8}[kind])
+    if kind == "bool":
+        return g.random(shape) < 0.6
     if kind == "impulse":
         a = np.zeros(shape, dtype=np.float64)
         pos = spec.get("pos")
@@ -69,5 +74,5 @@ def spec_is32(spec):
 
 def spec_isint(spec):
     if "lit" in spec:
-        return spec["dtype"].startswith("int")
-    return spec["kind"] == "i64"
+        return spec["dtype"].startswith(("int", "uint", "bool"))
+    return spec["kind"] in ("i64", "i8", "i16", "u8", "bool")
